@@ -32,6 +32,12 @@ UNI = ['é', 'ü', '€', '中', '\U0001F600', '́', 'Ж', '\U00010348']
 PUNCT = list("!#$%&'()*+,-/:;<=>?@[]^_`{|}~\\\"")
 
 
+# characters that are neither whitespace nor visible, at the start, the end and inside a name (byte order mark / zero width
+# no-break space, zero width space, word joiner, soft hyphen, zero width joiner, direction override, DEL, a lone combining mark)
+ODD_NAMES = ['\ufefffront.metric', 'back.metric\ufeff', 'mid\ufeffdle.metric', '\ufeff', '\ufeff\ufeffx', '\u200bzero.width', '\u2060word.joiner',
+             '\xadsoft.hyphen', 'joiner\u200d', '\u202eoverride', '\x7fdel', '\u0301combining', '\ufffe.nonchar', '\ufffd.replacement']
+
+
 def metric_name(r, nonascii=True, punct=False, maxseg=4):
   segs = []
   for _ in range(r.randint(1, maxseg)):
